@@ -69,6 +69,11 @@ CLAIMED = {
    text="Slice-backed Stack: Push stores append(items, item) exactly once on every path, Pop returns items[len-1] and stores items[:len-1], Peek reads items[len-1], all under the non-empty guard; the empty path returns the zero value and writes nothing; Search is a full forward scan; Size is len(items); nothing else writes items - with Go's append/re-slice semantics this is LIFO behaviour of the slice-backed stack. Linked LStack: n incremented exactly once with one Append(item), decremented at most once only where n is known positive, with one list Pop; Peek reads Last; positional list primitives never compare element values, observers write nothing; no untracked state (SI1). The value handed back by the linked variant's Pop is not decided.",
    note="Trusted: go/ssa, Go append/re-slice semantics; locking is C01/C02.",
    ref="DESIGN.md section 3 E7 (AG6, AG4), section 4 C05/C06"),
+ "C13": dict(
+   technique="canonical-scan recognition (PT5), guard dominance (PT6), strictness/direction of update comparisons, finite order abstraction of comparison-only functions (OD2 decision tables over every order type), helper hygiene (GS1/GS2) on go/ssa",
+   text="Decides: IndexOf/FindIndex/Contains/Some/Every are complete forward scans and LastIndexOf/FindLastIndex complete backward scans whose match edge returns at once and whose default result is returned only through the loop exit; FindAll stores (index, element) of one iteration under the predicate; extremum functions seed with s[0] only under len > 0, scan forward, update on the strict comparison their name promises with the element just read and return the accumulator; ByKey variants read map values only under the comma-ok presence test; Sum/SumBy/Mean add each element exactly once in a complete scan; Clamp, InRange, Abs, Compare, Less, Equal are comparison-only and their decision tables over every order type of the arguments equal the defining inequalities (exhaustive, holds for all inputs); helpers use no mutable package-level state and start no goroutines. Nth, Range/RangeRight and numeric values are not decided.",
+   note="Trusted: go/ssa; user callbacks are pure; OD2 first checks that the body is comparison-only (else undecided).",
+   ref="DESIGN.md section 3 E4/E6, section 4 C13"),
 }
 
 NOT_YET = "check not built yet (static-analysis engines under construction; see DESIGN.md section 7)"
